@@ -71,6 +71,7 @@ class Injector:
             ci = inj.cond_index(k)
             inj._tls.job = (rid, ci)
             inj._tls.fmcs_k = 0
+            inj._tls.ios_k = 0
             f = inj.plan.get("fit", {}).get("%s/%d" % (rid, ci))
             inj.note("fit", rid, ci, f)
             if f and f[0] == "delay":
@@ -81,6 +82,24 @@ class Injector:
 
         GD.MCSMissingGraphAnalyzer.fit = staticmethod(fit)
         self._orig_fit = orig_fit
+
+        # F5: an inner step of the iterative search fails (substructure removal for one reactant)
+        SA = GD.SubstructureAnalyzer
+        orig_ios = SA.identify_optimal_substructure
+
+        def identify_optimal_substructure(self_, *a, **k):
+            job = getattr(inj._tls, "job", None)
+            kk = getattr(inj._tls, "ios_k", 0)
+            inj._tls.ios_k = kk + 1
+            if job is not None:
+                want = inj.plan.get("inner_raise", {}).get("%s/%d" % job)
+                if want is not None and (want == "all" or kk in want):
+                    inj.note("inner_raise_injected", job[0], job[1], kk)
+                    raise Injected("injected failure in an inner search step")
+            return orig_ios(self_, *a, **k)
+
+        SA.identify_optimal_substructure = identify_optimal_substructure
+        self._orig_ios = orig_ios
 
         # real timeouts of the search wrapper are logged (treated as faults by the oracle)
         orig_safe = MP.single_mcs_safe
@@ -219,6 +238,7 @@ class Injector:
         self.MP.single_mcs_safe.__defaults__ = self._orig_defaults
         self.GD.MCSMissingGraphAnalyzer.fit = staticmethod(self._orig_fit)
         self.GD.rdFMCS = self._real_rdfmcs
+        self.GD.SubstructureAnalyzer.identify_optimal_substructure = self._orig_ios
         self.FG.FindMissingGraphs.find_missing_parts_pairs = staticmethod(self._orig_fmp)
         self.MS.find_graph_dict = self._orig_fgd
         mon = sys.monitoring
